@@ -256,6 +256,23 @@ func PathsOf(rng *vk.Rand, md protoreflect.MessageDescriptor) []string {
 	return out
 }
 
+// add remembers s once.
+func (p *IDPool) add(s string) {
+	if s == "" {
+		return
+	}
+	p.mu.Lock()
+	defer p.mu.Unlock()
+	for _, x := range p.ids {
+		if x == s {
+			return
+		}
+	}
+	if len(p.ids) < 64 {
+		p.ids = append(p.ids, s)
+	}
+}
+
 func (p *IDPool) Harvest(m protoreflect.Message, depth int) {
 	if depth > 3 {
 		return
@@ -266,25 +283,12 @@ func (p *IDPool) Harvest(m protoreflect.Message, depth int) {
 			n := string(fd.Name())
 			if n == "id" || strings.HasSuffix(n, "_id") || n == "name" || n == "consumable" || n == "version" {
 				if s := v.String(); s != "" {
-					p.mu.Lock()
-					if len(p.ids) < 64 {
-						p.ids = append(p.ids, s)
-					}
-					p.mu.Unlock()
+					p.add(s)
 				}
 			}
 		case fd.IsMap() && fd.MapKey().Kind() == protoreflect.StringKind:
 			// names used as map keys (and string map values) are ids too: mode names and their values, ...
-			add := func(s string) {
-				if s == "" {
-					return
-				}
-				p.mu.Lock()
-				if len(p.ids) < 64 {
-					p.ids = append(p.ids, s)
-				}
-				p.mu.Unlock()
-			}
+			add := p.add
 			n := 0
 			v.Map().Range(func(k protoreflect.MapKey, mv protoreflect.Value) bool {
 				add(k.String())
@@ -326,7 +330,7 @@ func (p *IDPool) Apply(rng *vk.Rand, m protoreflect.Message, depth int) {
 			m.Set(fd, protoreflect.ValueOfString("dev"))
 		case n == "name" && fd.Kind() == protoreflect.StringKind && !fd.IsList() && !fd.IsMap():
 			// nested names refer to things the server described earlier (presets, modes, ...)
-			if len(ids) > 0 && rng.Bool() {
+			if len(ids) > 0 && rng.Chance(3, 4) {
 				m.Set(fd, protoreflect.ValueOfString(ids[rng.Intn(len(ids))]))
 			}
 		case n == "update_mask" || n == "read_mask":
